@@ -137,8 +137,13 @@ def decode_rungs(F, CE, b):
                     if a[0] == "index":
                         x = a
                         m = bb
-                        mask = cev(CE, m[2]) if m[0] == "un" and m[1] == "!" else None
-                        mask = (~mask) & 0xFF if mask is not None else "?"
+                        if m[0] == "un" and m[1] == "!":
+                            mask = cev(CE, m[2])
+                            mask = (~mask) & 0xFF if mask is not None else "?"
+                        else:
+                            # the mask written out (`& 0x3F` for `& !0xC0`)
+                            mask = cev(CE, m)
+                            mask = (mask & 0xFF) if mask is not None else "?"
                         break
             bi = x[2][1] if x[0] == "index" and x[1] == data and x[2][0] == "int" else "?"
             parts.append((bi, mask, sh))
@@ -290,6 +295,13 @@ def r09_2(ctx, rr):
                     ev["ptr_el"] += 1
             if cname(F, n) == "rear_coded_list::encode_int":
                 a = Wk.T.term(n["args"][0])
+                if a[0] == "var":
+                    # a local computed before the branch (and snapshotted by the walker because last_str changes
+                    # later): its defining expression
+                    from r_guards import simple_env
+                    a2 = simple_env(F, pb).term(n["args"][0])
+                    if a2[0] == "op":
+                        a = a2
                 if id(n) in in_el:
                     ev["enc_el"].append(a)
                 else:
